@@ -168,6 +168,13 @@ def main_for(prop, run: core.Run, rule_extra: str, require=(), only=None):
                                    [(mth, how) for mth in ("nearsquare", "rectangle", "birectangle", "bizoned") for how in ("upper", "lower", "capital", "mixed")])]
         # ... and runs that cannot meet the limits and were not asked to continue: they end with a ValueError, nothing else
         fcases += [{"engine": "F", "method": mth, "cap": None, "cont": False, "load": "too_large", "casing": "upper"} for mth in (("nearsquare",) if run.tier == "quick" else ("nearsquare", "rectangle", "bizoned", "rowwise"))]
+        # a cap given as a float (the schema says "number"; 10.0 from a file or from the API)
+        fcases += [{"engine": "F", "method": mth, "cap": 10.0, "cont": True, "load": "too_large", "casing": "upper"} for mth in (("nearsquare",) if run.tier == "quick" else ("nearsquare", "rectangle", "birectangle"))]
+        # a failed run, then a larger lot on the same manager, the cap set once before the first run
+        fcases += [{"engine": "F", "kind": "history", "method": mth, "cap": 30, "load": "heavy",
+                    "geo_small": {"length": 20.0, "width": 15.0, "b_min": 3.0, "b_max_x": 10.0, "b_max_y": 12.0} if mth != "rectangle" else {"length": 20.0, "width": 15.0, "b_min": 3.0, "b_max": 10.0},
+                    "geo_large": {"length": 60.0, "width": 40.0, "b_min": 3.0, "b_max_x": 10.0, "b_max_y": 12.0} if mth != "rectangle" else {"length": 60.0, "width": 40.0, "b_min": 3.0, "b_max": 10.0}}
+                   for mth in (("birectangle",) if run.tier == "quick" else ("birectangle", "bizoned", "rectangle"))]
         run.drive(fcases, family="F", init_args=(prop, "B"), chunksize=1)
     if prop == "C12" and (not only or "R" in only):
         rcases = [{"engine": "R", "kind": k, "method": mth, "load": ld} for k in ("setter_after_design", "report_read_after_next_design")
